@@ -36,7 +36,7 @@ Proof. exact contains_mono. Qed.
 Print Assumptions C11_mono.
 
 (* ==== T1 tie (term list) ==== *)
-Require Import PyDict PyLoop PyTermList TermGen TermListGen TermListGenBase TermListGenEval.
+Require Import PyDict PyLoop PyTermList TermGen TermListGen TermListGenBase TermListGenEval TermListGenContains.
 (* T1 tie: PolyhedralTermList.evaluate / contains_behavior as translated from polyhedra.py ON THIS RUN (gen/TermListGen.v) are the model functions the theorems above speak about (on lists of terms with distinct keys). proofs/TermListGenEval.v *)
 Theorem C11_code_evaluate :
   forall (ts : list pterm) (b : pvars), Forall wft ts -> PolyhedralTermList_evaluate ts b = evaluate ts b.
